@@ -211,3 +211,6 @@ def run(facts, rep, tier):
     from . import c04
     from .c01 import _Only
     c04.rule_r3(facts, _Only(rep, "cache:nodes_map"), "C13-R5")
+    rep.rule("C13-R6", "= C04-R4: the per-note line table is only rebuilt by the re-parse, so Graph::update_key must reach Graph::from_markdown on every path (no `nothing changed` shortcut): an "
+             "edit that only moves blocks (blank lines added on top) otherwise leaves every line answer pointing at the old positions.")
+    c04.rule_r4(facts, rep, "C13-R6")
